@@ -748,6 +748,31 @@ theorem intersect_at_probe {LoI HiI : List Version} (hnp : NoPoint LoI HiI) (p :
     ∃ c, VC.intersect a b = .ok c ∧ c.PInv LoI HiI p ∧ c.allowsPlain p = (a.allowsPlain p && b.allowsPlain p) :=
   VC.intersect_at hnp p hp a b ha hb
 
+/-- **`union` of two constraints over range members (unions included), at a probe**: total — `VersionRange.union`'s
+hull for two single ranges that overlap or touch, `VersionUnion.of` otherwise —, keeps the invariant (the result is
+well-formed: sorted, separated, inhabited members), and admits the probe exactly when one of the operands does -/
+theorem union_at_probe {LoI HiI : List Version} (p : Version) (hp : p.wf = true) (a b : VC)
+    (ha : a.PInv LoI HiI p) (hb : b.PInv LoI HiI p) :
+    ∃ c, VC.unionWith a b = .ok c ∧ c.PInv LoI HiI p ∧ c.allowsPlain p = (a.allowsPlain p || b.allowsPlain p) :=
+  VC.unionWith_at p hp a b ha hb
+
+/-- … on ALL versions for the half-open fragment with unstable lower ends -/
+theorem halfopen_dev_union_exact (a b : VC) (ha : a.WF) (hb : b.WF)
+    (hma : ∀ x ∈ a.flatten, x.HalfOpenDev) (hmb : ∀ x ∈ b.flatten, x.HalfOpenDev) :
+    ∃ c, VC.unionWith a b = .ok c ∧ c.WF ∧
+      ∀ p, p.wf = true → c.allowsPlain p = (a.allowsPlain p || b.allowsPlain p) := by
+  let LoI := a.bounds ++ b.bounds
+  have inv : ∀ p, a.PInv LoI [] p ∧ b.PInv LoI [] p := fun p =>
+    ⟨⟨ha, fun x hx => (hma x hx).psem LoI (fun e he => List.mem_append_left _ (by
+        rw [VC.bounds_eq_flatMap]; exact List.mem_flatMap.2 ⟨x, hx, he⟩)) p⟩,
+     ⟨hb, fun x hx => (hmb x hx).psem LoI (fun e he => List.mem_append_right _ (by
+        rw [VC.bounds_eq_flatMap]; exact List.mem_flatMap.2 ⟨x, hx, he⟩)) p⟩⟩
+  obtain ⟨c, hc, hci, _⟩ := VC.unionWith_at (Version.mk' 0 [0] none none none none) (by decide) a b (inv _).1 (inv _).2
+  refine ⟨c, hc, hci.1, fun p hp => ?_⟩
+  obtain ⟨c', hc', _, hs⟩ := VC.unionWith_at p hp a b (inv p).1 (inv p).2
+  rw [hc] at hc'; injection hc' with hc'; subst hc'
+  exact hs
+
 /-- **the half-open fragment with unstable lower ends** (every disjunction of `==V.*` clauses: `[X.dev0, Y.dev0)`
 members): `intersect` is exact on ALL versions, with no hypothesis on the bounds among themselves -/
 theorem halfopen_dev_intersect_exact (a b : VC) (ha : a.WF) (hb : b.WF)
@@ -827,7 +852,9 @@ commutativity; on EVERY probe: `intersect` of non-union operands at probes fine 
 (`final_intersect_exact`), with `counterexample_intersect_sibling_gap` for the complement; at the union level without
 `RegB`: `VersionUnion.of` and `intersect` at a probe (`union_of_at_probe`, `intersect_at_probe`), on all versions for the
 half-open fragment with unstable lower ends (`halfopen_dev_intersect_exact`, `halfopen_dev_union_of_exact`), with
-`counterexample_union_of_adjacent_gap` for stable lower ends.  Not proved without `RegB`: union ∪ / − at a probe, and
+`counterexample_union_of_adjacent_gap` for stable lower ends; `union` at a probe (`union_at_probe`,
+`halfopen_dev_union_exact`); the walk returns the pairwise intersections whatever the lengths
+(`intersect_members_eq_pairwise`).  Not proved without `RegB`: `difference` at a probe, `Version` members inside unions, and
 the union-level results for bounds that are local builds or irregular for each other (e.g. `<2.0 || >=2.0a1`). -/
 def C05_full_statement : Prop :=
   ∀ a b : VC, a.WF → b.WF →
